@@ -480,6 +480,7 @@ func plans(thorough bool) []plan {
 func TestCheck(t *testing.T) {
 	r := mc.New(t, "C02")
 	defer r.Finish()
+	r.CrashFails = true
 	if r.Replay != nil {
 		var probe struct {
 			Family string `json:"family"`
